@@ -120,8 +120,17 @@ def make_async_data(tape, events: Events, *, gate_stream: str = "g", data_stream
             await asyncio.sleep(GATE_DELAYS[tape.draw(len(GATE_DELAYS), gate_stream)])
             yield v
 
+    import types
+
+    @types.coroutine
+    def gc1(x=0):
+        # generator-based coroutine: awaitable although its type is the plain generator type
+        events.ev("gcoro")
+        yield from asyncio.sleep(GATE_DELAYS[tape.draw(len(GATE_DELAYS), gate_stream)]).__await__()
+        return W.f1(x) + 3
+
     data.update(
-        f1=f1, f2=f2, af1=af1, af2=af2,
+        gc1=gc1, f1=f1, f2=f2, af1=af1, af2=af2,
         ai1=AIter(items, events, tape, gate_stream),
         ai2=AIter(list(data["ld"]), events, tape, gate_stream),
         ag1=ag1,
